@@ -988,6 +988,7 @@ func (fr *Frame) localsAt(h *ssa.BasicBlock, pidx int) (map[string]func(*State) 
 			}
 		}
 	}
+	fr.addrTakenLocals(h, out, addrs) // ext_locals.go: address-taken locals denote the current content of their cell
 	// composite-literal slices (`for _, x := range []T{...}`): the backing array has no source name;
 	// expose the k-th such allocation that dominates h as `slicelit` (k == 0) / `slicelit_<k>` (a *[N]T value).
 	nlit := 0
